@@ -1,3 +1,4 @@
+import warnings
 from collections import namedtuple
 
 from ply import yacc, lex
@@ -71,7 +72,11 @@ class Lexer(object):
     def t_STRING(self, t):
         t.lexer.lineno += _count_newlines(t.value)
         try:
-            t.value = t.value[1:-1].encode("latin-1", "backslashreplace").decode("unicode_escape")
+            # An unknown escape such as "\p" is kept as written; newer Pythons also warn about it, which must not reach callers
+            # who turn warnings into errors
+            with warnings.catch_warnings():
+                warnings.simplefilter("ignore", DeprecationWarning)
+                t.value = t.value[1:-1].encode("latin-1", "backslashreplace").decode("unicode_escape")
         except UnicodeDecodeError:
             raise SyntaxError("Invalid escape sequence in string at position {0}".format(t.lexpos))
         return t
